@@ -162,10 +162,13 @@ static void do_wmap(size_t n)
 
 static void do_wcommit(void)
 {
-    if (!pending) { illformed(); return; }
+    // channel_write_unmap with nothing mapped is within the rules (source.c: abort, then the unconditional unmap, when the camera
+    // hands out an empty frame): it commits [head, mapped), which is empty after a commit or an abort — and is the region of a write
+    // whose commit was refused earlier, if the channel accepts writes again
     size_t head0 = ch.head;
+    if (!pending) { pend_beg = ch.head; pend_len = ch.mapped - ch.head; }
     channel_write_unmap(&ch);
-    if (pending && ch.head != head0) {
+    if (ch.head != head0) {
         // committed: the region [pend_beg, pend_beg+pend_len) is now stream data
         if (total + pend_len >= MAXSTREAM) { printf("stream-limit\n"); exit(3); }
         for (size_t j = 0; j < pend_len; ++j) {
